@@ -556,6 +556,45 @@ def task_manager_facts(scan):
     return facts
 
 
+def service_facts(scan):
+    """How the service forgets an overlay: `IPv8.unload_overlay` and the inline copy in HiddenTunnelCommunity.remove_exit_socket
+    (a PEX overlay that has finished).  The `Svc` model rebuilds both lists without the instance, strategies selected by the
+    overlay they drive."""
+    facts = {}
+    path = Path(REPO) / "ipv8_service.py"
+    try:
+        tree = ast.parse(path.read_text())
+    except (OSError, SyntaxError) as e:
+        raise TranslatorError(f"cannot parse ipv8_service.py: {e}") from e
+    cls = next((n for n in ast.walk(tree) if isinstance(n, ast.ClassDef) and n.name == "IPv8"), None)
+    fn = _method(cls, "unload_overlay") if cls is not None else None
+    if fn is None:
+        raise TranslatorError("IPv8.unload_overlay not found")
+
+    def rebuilt(fnode, attr_chain, must_contain):
+        for n in ast.walk(fnode):
+            if isinstance(n, ast.Assign) and len(n.targets) == 1 and _is_self_attr(n.targets[0], *attr_chain) \
+                    and isinstance(n.value, ast.ListComp) and len(n.value.generators) == 1 and n.value.generators[0].ifs:
+                cond = " ".join(_src(i) for i in n.value.generators[0].ifs)
+                if all(m in cond for m in must_contain) and "!=" in cond or " is not " in cond and all(m in cond for m in must_contain):
+                    return True
+        return False
+
+    facts["unloadOverlayRebuildsOverlayList"] = rebuilt(fn, ("overlays",), ["instance"])
+    facts["unloadOverlaySelectsStrategiesByTheirOverlay"] = rebuilt(fn, ("strategies",), [".overlay", "instance"])
+    facts["unloadOverlayThenUnloadsTheInstance"] = "instance.unload" in _src(fn)
+    hidden = scan.get("HiddenTunnelCommunity")
+    res = _method(hidden[2], "remove_exit_socket") if hidden else None
+    if res is None:
+        facts["pexOverlayLeavesServiceWithItsStrategies"] = True        # no inline copy: nothing to get wrong
+    else:
+        src = _src(res)
+        facts["pexOverlayLeavesServiceWithItsStrategies"] = (
+            "self.ipv8.strategies" not in src or rebuilt(res, ("ipv8", "strategies"), [".overlay", "pex"])
+            or "unload_overlay(pex)" in src)
+    return facts
+
+
 def translate():
     scan = _scan()
     names = shipped(scan)
@@ -580,6 +619,12 @@ def translate():
     lines.append(",\n".join(f'  ("{k}", {str(v).lower()})' for k, v in facts.items()))
     lines.append("]")
     lines.append("")
+    sfacts = service_facts(scan)
+    lines.append("/-- how the service forgets an overlay (ipv8_service.py and the inline copy in hidden_services.py) -/")
+    lines.append("def serviceFacts : List (String × Bool) := [")
+    lines.append(",\n".join(f'  ("{k}", {str(v).lower()})' for k, v in sfacts.items()))
+    lines.append("]")
+    lines.append("")
     for ctor in ("remCircuit", "remRelay", "remExit"):
         lines.append(f"def sleeps_{ctor} (removeNow : Bool) (delay : Nat) : Bool := {guards[ctor]}")
     lines += ["",
@@ -600,7 +645,7 @@ def translate():
         info.append({"name": n, "script": script, "proxy": proxy, "cache": cache, "db": db})
     lines.append(",\n".join(rows))
     lines += ["]", "", "end Ipv8.C11.Gen", ""]
-    return "\n".join(lines), {"classes": info, "forwards": fwd, "guards": guards, "delay": delay, "scheduler_facts": facts}
+    return "\n".join(lines), {"classes": info, "forwards": fwd, "guards": guards, "delay": delay, "scheduler_facts": facts, "service_facts": sfacts}
 
 
 if __name__ == "__main__":
